@@ -299,7 +299,8 @@ struct Runner
             // the audit must not disturb expired-but-unreaped entries unless the case says so: decide which
             // keys to skip from the follower's view *after* this op, i.e. run the monitor in two stages.
             Violation v;
-            bool      ok = true;
+            bool      ok = true, failed_at_audit = false;
+            rows.clear();
             // stage 1: op + probes; stage 2 (if this step has an audit): audit against the committed candidates
             ok = mon.step(op, res, pr, nullptr, now, v);
             if (!ok)
@@ -327,19 +328,49 @@ struct Runner
                     cache->probe(p2);
                     // audit rows are checked against the candidates; the explanation uses the op context
                     ok = audit_stage(mon, op, res, pr, rows, now, v);
+                    if (!ok)
+                        failed_at_audit = true;
                     if (ok)
+                    {
                         ok = monitor_post_audit(mon, p2, now, rows, v);
+                        if (!ok)
+                            rows.clear(); // no resynchronisation from here: the audit itself changed the container
+                    }
                     line += "   audit=" + audit_to_text(rows);
                 }
             }
             cr.lines.push_back(line + "  -> " + res_to_text(op, res) + "  size=" + std::to_string(pr.size) + (kind_is_ttl(cfg.kind) || cfg.kind == LFUDA ? "  t=" + std::to_string(now - T0) : ""));
             if (print)
-                std::printf("%4zu  %s\n", i, cr.lines.back().c_str());
+                std::printf("%4zu  %s%s\n", i, cr.lines.back().c_str(), ok ? "" : "   <== violation");
             if (!ok)
             {
-                cr.violated      = true;
-                v.op_index       = (int)i;
-                cr.viol          = v;
+                if (!cr.violated)
+                {
+                    cr.violated = true;
+                    v.op_index  = (int)i;
+                    cr.viol     = v;
+                }
+                else
+                {
+                    for (auto& t : v.tags)
+                        if (std::find(cr.viol.tags.begin(), cr.viol.tags.end(), t) == cr.viol.tags.end())
+                            cr.viol.tags.push_back(t);
+                    cr.viol.detail += " || op " + std::to_string(i) + ": " + v.detail;
+                }
+                // carry on with the same case if the follower can adopt what the audit found (monitor.hpp)
+                bool unattributed_only = true;
+                for (auto& t : v.tags)
+                    if (t.compare(0, 12, "UNATTRIBUTED") != 0)
+                        unattributed_only = false;
+                // the audit may itself have changed what size() reports (ut_map / ut_set purge on every lookup, an
+                // audit that looks at expired entries reaps them): resynchronise to a probe taken after it
+                Probe pnow;
+                cache->probe(pnow);
+                if (!unattributed_only && mon.resyncs < 4 && !rows.empty() && mon.try_resync(op, res, pnow, rows, now, failed_at_audit))
+                {
+                    cr.lines.back() += "   [violation recorded; follower resynchronised to the audit]";
+                    continue;
+                }
                 break;
             }
             if (mon.inconclusive)
